@@ -16,35 +16,11 @@ mod drivers;
 pub struct Official;
 pub struct Intermediary;
 pub struct Named;
-/// Stand-ins for the downloader of the binary crate: src/build.rs refers to these types in its (never called) async `build`;
-/// only `build_inner` is driven by the harness.
-pub mod download {
-	use anyhow::{bail, Result};
-	use dukebox::storage::FileJar;
-	use dukenest::nest::Nests;
-	use quill::tree::mappings::Mappings;
-	use crate::version_graph::VersionEntry;
-	use crate::{Intermediary, Official};
-	pub mod versions_manifest {
-		#[derive(Debug, Clone, PartialEq)] pub struct MinecraftVersion(pub String);
-		pub struct VersionsManifest;
-	}
-	pub struct Download { pub url: String }
-	pub struct Downloads { pub client: Option<Download>, pub server: Option<Download> }
-	pub struct VersionDetails { pub downloads: Downloads }
-	pub struct Versions { pub versions: Vec<String> }
-	pub struct Versioning { pub versions: Versions }
-	pub struct MavenMetadata { pub versioning: Versioning }
-	pub struct Downloader;
-	impl Downloader {
-		pub(crate) async fn version_details(&self, _m: &versions_manifest::VersionsManifest, _v: VersionEntry<'_>) -> Result<VersionDetails> { bail!("stub") }
-		pub(crate) async fn calamus_v2(&self, _v: VersionEntry<'_>) -> Result<Mappings<2, (Official, Intermediary)>> { bail!("stub") }
-		pub(crate) async fn mc_libs(&self, _m: &versions_manifest::VersionsManifest, _v: VersionEntry<'_>) -> Result<Vec<FileJar>> { bail!("stub") }
-		pub(crate) async fn download_nests(&self, _v: VersionEntry<'_>) -> Result<Option<Nests<Official>>> { bail!("stub") }
-		pub(crate) async fn get_jar(&self, _url: &str) -> Result<FileJar> { bail!("stub") }
-		pub(crate) async fn get_maven_metadata_xml(&self, _url: &str) -> Result<MavenMetadata> { bail!("stub") }
-	}
-}
+/// The downloader of the binary crate (src/download/mod.rs with its sub modules), compiled in from /repo's working tree:
+/// src/build.rs and src/version_graph.rs refer to its types, drivers/dl.rs runs it offline against the download cache.
+#[allow(dead_code, deprecated, unused)]
+#[path = "/repo/src/download/mod.rs"]
+pub mod download;
 #[allow(dead_code, deprecated, unused)]
 #[path = "/repo/src/version_graph.rs"]
 mod version_graph;
